@@ -7,7 +7,9 @@ KW = {'published': '__published', 'public': 'public', 'protected': 'protected', 
 
 
 def gen_world(rng):
-    w = {'promiscuous': rng.random() < 0.35, 'files': [], 'classes': [], 'n': {'ignoremember': [], 'ignoreinvolved': [], 'ignoretype': [], 'ignorefile': []}}
+    w = {'promiscuous': rng.random() < 0.35, 'files': [], 'classes': [], 'n': {'ignoremember': [], 'ignoreinvolved': [], 'ignoretype': [], 'ignorefile': []},
+         # how the names of a .N line are separated: blanks, tabs or runs of both
+         'nsep': rng.choice([' ', ' ', '\t', '  ', ' \t', '\t\t']), 'csep': rng.choice([' ', ' ', '\t'])}
     hows = ['cmdline'] + rng.sample(['cwd', 'alt', 'sys', 'cmdline2'], rng.randrange(1, 4))
     if rng.random() < 0.35:
         # a command-line file in a subdirectory with a sibling header it includes by quote: the sibling is neither named nor in the working directory
@@ -253,11 +255,11 @@ def nfile(w):
     L = []
     n = w['n']
     if n['ignoremember']:
-        L.append('ignoremember ' + ' '.join(n['ignoremember']))
+        L.append('ignoremember' + w.get('csep', ' ') + w.get('nsep', ' ').join(n['ignoremember']))
     for x in n['ignoreinvolved']:
         L.append('ignoreinvolved ' + x)
     for x in n['ignoretype']:
         L.append('ignoretype ' + x)
     if n['ignorefile']:
-        L.append('ignorefile ' + ' '.join(n['ignorefile']))
+        L.append('ignorefile' + w.get('csep', ' ') + w.get('nsep', ' ').join(n['ignorefile']))
     return '\n'.join(L) + ('\n' if L else '')
